@@ -786,6 +786,9 @@ fn thread_main(mut ctx: Ctx) {
         }
         w.rec.steps += hook::total_steps();
         w.rec.clock_jumps += hook::take_jumps_fired();
+        let (e, o) = hook::take_edge_counts();
+        w.rec.edges += e;
+        w.rec.edge_offers += o;
         if hook::did_cold_init() {
             w.rec.cold = true;
             w.rec.cold_init_thread = idx as i64;
@@ -998,6 +1001,7 @@ pub fn run(
         rec.log_hash = g.log_hash.0;
         rec.trace = g.trace.take();
         rec.pooled_threads = use_pool;
+        rec.dense = hook::dense_build();
         rec.sched_hash = g.sched_hash.0;
         rec.ileave_hash = g.ileave_hash.0;
         rec.decisions = g.decisions.len();
